@@ -69,13 +69,17 @@ def main(args):
     seed = core.base_seed()
     batch = runner.Batch('C10', tier, seed)
     n = args.runs or TIERS[tier]['runs']
-    recs = core.parallel_runs(lambda i: one_run(i, seed), list(range(n)))
+    stop = core.EarlyStop(lambda r: r.get('status') == 'violation')
+    recs = core.parallel_runs(lambda i: one_run(i, seed), list(range(n)), progress=stop)
     total = {}
     hashes, nontrivial = set(), set()
     samples, viol, digests = [], [], []
     steps = 0
+    skipped = 0
     for i in sorted(recs):
         r = recs[i]
+        if r.get('_skipped'):
+            skipped += 1; continue
         if '_harness_error' in r:
             batch.harness_errors.append(r['_harness_error']); continue
         if r['status'] == 'harness':
@@ -115,7 +119,8 @@ def main(args):
     cut_fields = total.pop('cut_fields', {})
     oos = total.pop('out_of_scope', {})
     cov = {
-        'evaluations': n,
+        'evaluations': n - skipped,
+        'skipped_after_early_stop': skipped,
         'distinct_histories': len(hashes),
         'distinct_nontrivial': len(nontrivial),
         'rule': ('a run = one seeded byte image (real assembler output + structured random encodings + junk, <= 512 bytes) and 1-3 clients, each '
